@@ -153,6 +153,14 @@ def run_project(arg):
                    '--enable-shared', '--enable-static']
             if tc:
                 cmd += ['--toolchain', tcpath, '--prefix', '/opt/cmd line']
+            if c['noise'] and c['form'] == 'rel':
+                # the invoking directory is reached through a symbolic link
+                # and $PWD carries that spelling (as a login shell leaves it)
+                lnk = os.path.join(p.root, 'lnk')
+                if not os.path.exists(lnk):
+                    os.symlink(p.root, lnk)
+                cwd = os.path.join(lnk, os.path.relpath(cwd, p.root))
+                env['PWD'] = cwd
             rc, out = run(cmd, cwd=cwd, env=env)
             pr, aux = digest_files(p.bld) if rc == 0 else ([], [])
             events.append({'ev': 'Run', 'ctx': c, 'exit': rc, 'primary': pr,
